@@ -94,6 +94,54 @@ func wellFormed(e stmt.Expr) bool {
 	return true
 }
 
+// illFormedWhere names the clause of a parsed statement that holds a nil child or a non-finite
+// literal ("" if none): the stable key of the "accepted => well formed" oracle.
+func illFormedWhere(q *stmt.Query) string {
+	for _, e := range q.SelectItems {
+		if !wellFormed(e) {
+			return "nil-child-in-select"
+		}
+	}
+	if q.Having != nil && !wellFormed(q.Having) {
+		if hasCallWithBadParam(q.Having) {
+			return "nil-child-in-having-call"
+		}
+		return "nil-child-in-having"
+	}
+	for _, e := range q.OrderByItems {
+		if !wellFormed(e) {
+			return "nil-child-in-order-by"
+		}
+	}
+	if q.Condition != nil && !wellFormed(q.Condition) {
+		return "nil-child-in-condition"
+	}
+	return ""
+}
+
+// hasCallWithBadParam: some CallExpr in e has a parameter that is not well formed.
+func hasCallWithBadParam(e stmt.Expr) bool {
+	switch x := e.(type) {
+	case *stmt.CallExpr:
+		for _, p := range x.Params {
+			if !wellFormed(p) {
+				return true
+			}
+		}
+	case *stmt.ParenExpr:
+		return hasCallWithBadParam(x.Expr)
+	case *stmt.BinaryExpr:
+		return hasCallWithBadParam(x.Left) || hasCallWithBadParam(x.Right)
+	case *stmt.NotExpr:
+		return hasCallWithBadParam(x.Expr)
+	case *stmt.SelectItem:
+		return hasCallWithBadParam(x.Expr)
+	case *stmt.OrderByExpr:
+		return hasCallWithBadParam(x.Expr)
+	}
+	return false
+}
+
 func queryWellFormed(q *stmt.Query) bool {
 	for _, e := range q.SelectItems {
 		if !wellFormed(e) {
@@ -285,6 +333,28 @@ func witnessSQL(c *core.Ctx, text, key string) {
 	queryOps(c, q, key, text)
 }
 
+// witnessWellFormed: the statement is rejected, or else its tree is well formed and survives.
+func witnessWellFormed(c *core.Ctx, text, key string) {
+	st, err := parse(c, text)
+	if err != nil {
+		c.Branch("witness-rejected-by-parser")
+		return
+	}
+	q, ok := st.(*stmt.Query)
+	if !ok {
+		c.Fail("witness-shape", "witness did not parse to a query: "+text)
+		return
+	}
+	c.Branch("witness-accepted")
+	if w := illFormedWhere(q); w != "" {
+		if key == "" {
+			key = w
+		}
+		c.Fail(key, fmt.Sprintf("sql.Parse accepts %q but leaves an operand nil: %s", text, clip(queryDump(q))))
+	}
+	queryOps(c, q, key, text)
+}
+
 func caseWitnesses(c *core.Ctx, i int) {
 	switch i {
 	case 0:
@@ -299,6 +369,27 @@ func caseWitnesses(c *core.Ctx, i int) {
 		witnessSQL(c, "select (*) from cpu"+absRange, keyNilStar)
 		witnessSQL(c, "select f+10s from cpu"+absRange, keyNilDuration)
 		witnessSQL(c, "select sum(*) from cpu"+absRange, "") // params stay empty: survives
+		// the same operands inside function-call parameters, in every clause that takes expressions:
+		// each must be rejected, or else be well formed and survive
+		g := " group by host having "
+		for _, w := range []struct{ text, key string }{
+			{"select f from cpu" + absRange + g + "sum(f + *) > 1", "nil-child-in-having-call"},
+			{"select f from cpu" + absRange + g + "max((*)) > 1", "nil-child-in-having-call"},
+			{"select f from cpu" + absRange + g + "sum(f + 10s) > 1", "nil-child-in-having-call"},
+			{"select f from cpu" + absRange + g + "f < 2 and (g > 1 or min(h, (*) / 2) > 1)", "nil-child-in-having-call"},
+			{"select f from cpu" + absRange + g + "f + * > 1", "nil-child-in-having"},
+			{"select f from cpu" + absRange + g + "10s > 1", "nil-child-in-having"},
+			{"select f from cpu" + absRange + g + "sum(*) > 1", ""}, // empty params: fine
+			{"select sum(f + *) from cpu" + absRange, "nil-child-in-select"},
+			{"select sum((*)) as s from cpu" + absRange, "nil-child-in-select"},
+			{"select g, max(sum(f+10s)) from cpu" + absRange, "nil-child-in-select"},
+			{"select sum(10s) from cpu" + absRange, ""}, // params stay empty
+			{"select f from cpu" + absRange + " order by sum(f + *)", "nil-child-in-order-by"},
+			{"select f from cpu" + absRange + " order by sum((*)) desc", "nil-child-in-order-by"},
+			{"select f from cpu" + absRange + " order by f + 10s", "nil-child-in-order-by"},
+		} {
+			witnessWellFormed(c, w.text, w.key)
+		}
 	case 2:
 		c.Branch("witness-interval-overflow")
 		witnessSQL(c, "select f from cpu"+absRange+" group by time(100000000000000y)", keyIntervalOvf)
@@ -370,6 +461,9 @@ func caseSQL(c *core.Ctx, r *rand.Rand) {
 	st, err := parse(c, text)
 	if err != nil {
 		c.Branch("sql-rejected")
+		if g.badOperands > 0 {
+			c.Branch("sql-rejected-star-or-duration-operand")
+		}
 		// determinism also covers rejection
 		if _, err2 := parse(c, text); err2 == nil || err2.Error() != err.Error() {
 			c.Fail("parser-nondeterministic", fmt.Sprintf("%q rejected with %q, then %v", text, err, err2))
@@ -424,10 +518,16 @@ func caseSQL(c *core.Ctx, r *rand.Rand) {
 	if len(q.GroupBy) > 0 || q.Interval != 0 || q.AutoGroupByTime {
 		c.Branch("has-group-by")
 	}
-	if !queryWellFormed(q) {
-		c.Branch("parser-built-ill-formed-tree")
+	if g.badOperands > 0 {
+		c.Branch("sql-accepted-with-star-or-duration-operand")
 	}
-	queryOps(c, q, "", "parsed from "+clip(text))
+	// accepted => the tree is well formed (no nil child, no NaN/Inf literal) and survives the wire
+	rtKey := ""
+	if w := illFormedWhere(q); w != "" {
+		rtKey = w
+		c.Fail(w, fmt.Sprintf("sql.Parse accepts %q but leaves an operand nil (or a non-finite literal): %s", clip(text), clip(queryDump(q))))
+	}
+	queryOps(c, q, rtKey, "parsed from "+clip(text))
 	switch r.Intn(6) {
 	case 0, 1:
 		c.Branch("planned")
